@@ -666,8 +666,14 @@ def _save_composite_subset_state(state, context):
 @loader(CompositeSubsetState)
 def _load_composite_subset_state(rec, context):
     cls = lookup_class_with_patches(rec['_type'])
-    result = cls(context.object(rec['state1']),
-                 context.object(rec['state2']))
+    state1 = context.object(rec['state1'])
+    state2 = context.object(rec['state2'])
+    result = cls(state1, state2)
+    # The constructor copies its operands, but some restored states (e.g.
+    # SliceSubsetState) are only completed later on by a callback, which the
+    # copies would not see - so we keep the restored objects themselves.
+    result.state1 = state1
+    result.state2 = state2
     return result
 
 
